@@ -73,6 +73,11 @@ def crystal_library():
                                                        [a([0., 0., 0.])]], noreduce=True)
     L['oblique-c1'] = lambda: _c(a([[1., 0.25], [0., 1.5]]), [[a([0.25, 0.125]), a([0.625, 0.5])], [a([0.1, 0.7])]], noreduce=True)
     L['tric-c1'] = lambda: _c(a([[1., 0.3, 0.2], [0., 1.1, 0.4], [0., 0., 0.9]]), [[a([0.1, 0.2, 0.3])], [a([0.6, 0.1, 0.55])]], noreduce=True)
+    # HCP with octahedral and tetrahedral interstitial sites (chem 1)
+    def _hcpot():
+        h = crystal.Crystal.HCP(1.0)
+        return h.addbasis(h.Wyckoffpos(a([0., 0., 0.5])) + h.Wyckoffpos(a([1. / 3., 2. / 3., 0.625])))
+    L['hcpot'] = _hcpot
     L['fcc-nosym'] = lambda: _c(0.5 * a([[0., 1., 1.], [1., 0., 1.], [1., 1., 0.]]), [a([0., 0., 0.])], NOSYM=True)
     L['hcp-nosym'] = lambda: _c(a([[0.5, 0.5, 0.], [-np.sqrt(0.75), np.sqrt(0.75), 0.], [0., 0., np.sqrt(8. / 3.)]]),
                                 [a([1. / 3, 2. / 3, 0.25]), a([2. / 3, 1. / 3, 0.75])], NOSYM=True)
